@@ -2315,7 +2315,8 @@ def glom(target, spec, **kwargs):
             # stack trace with the explicit "raise err" below
             try:
                 err = copy.copy(e)
-                if err.args != e.args:  # re-creation changed the args
+                # re-creation changed the class or the args
+                if type(err) is not type(e) or err.args != e.args:
                     err = e
             except Exception:  # maybe exception can't be re-created
                 err = e
